@@ -18,7 +18,7 @@ Section Kind.
     apply (rd_arg_suffix 6) in H0. change (ssfx bs r0) in H0. change (ssfx bs r).
     destruct (t =? 102).
     - apply bind_ok in H as [[ln r1] [H1 H]].
-      destruct (match ln with Arg n => n <? 2 | Indef => false end); [discriminate|].
+      destruct (match ln with Arg n => negb (n =? 2) | Indef => false end); [discriminate|].
       apply bind_ok in H as [[alt r2] [H2 H]]. apply bind_ok in H as [[[[tg df] xs] r3] [H3 H]].
       apply bind_ok in H as [r4 [H4 H]]. injection H as <- <-.
       apply rd_head_suffix in H1. apply (rd_arg_suffix 0) in H2. apply dec_plist_suffix in H3.
@@ -41,7 +41,7 @@ Section Kind.
   Proof.
     intros bs k r H. unfold dec_pmap in H. apply bind_ok in H as [[ln r0] [H0 H]].
     apply bind_ok in H as [[kvs r1] [H1 H]]. injection H as <- <-.
-    apply rd_head_suffix in H0. apply (dec_elems_suffix _ _ dec_kv_suffix) in H1.
+    apply rd_head_suffix in H0. apply (dec_elems_suffix _ dec_kv_suffix) in H1.
     apply (ssfx_sfx_trans _ _ _ H0 H1).
   Qed.
 
